@@ -80,13 +80,20 @@ def revive(obj):
 # ----------------------------------------------------------------------------------------
 
 
+# set by the runner while it executes an "in-place pair" case: both products of the pair are then
+# materialised at the SAME root (same path / URL), the second replacing the first, as a
+# re-delivered product does
+FIXED_NAME = None
+
+
 class Materialised:
     """a product placed on some filesystem; use as a context manager"""
 
     def __init__(self, files, kind="local", name=None):
         self.files = files
         self.kind = kind
-        self.name = name or f"prod-{os.getpid()}-{next(_counter)}-{uuid.uuid4().hex[:8]}"
+        self.fixed = name is None and FIXED_NAME is not None
+        self.name = name or FIXED_NAME or f"prod-{os.getpid()}-{next(_counter)}-{uuid.uuid4().hex[:8]}"
         self.dir = None
         self.url = None
         self.storage_options = {}
@@ -95,7 +102,13 @@ class Materialised:
         import fsspec
 
         if self.kind in ("local", "file"):
-            self.dir = pathlib.Path(tempfile.mkdtemp(prefix="vfprod-", dir=scratch_root())) / self.name
+            if self.fixed:
+                base = scratch_root() / "vfprod-fixed"
+                base.mkdir(exist_ok=True)
+                self.dir = base / self.name
+                shutil.rmtree(self.dir, ignore_errors=True)
+            else:
+                self.dir = pathlib.Path(tempfile.mkdtemp(prefix="vfprod-", dir=scratch_root())) / self.name
             self.dir.mkdir()
             for name, data in self.files.items():
                 (self.dir / name).write_bytes(data)
@@ -119,7 +132,7 @@ class Materialised:
         import fsspec
 
         if self.kind in ("local", "file"):
-            shutil.rmtree(self.dir.parent, ignore_errors=True)
+            shutil.rmtree(self.dir if self.fixed else self.dir.parent, ignore_errors=True)
         elif self.kind == "memory":
             fs = fsspec.filesystem("memory")
             try:
